@@ -1,6 +1,6 @@
 SPEC = {
     "id": "C05",
-    "drivers": [{"pkg": "internal/corerad", "test": "TestVerifC05", "newgo": True, "timeout": 1200},
+    "drivers": [{"pkg": "internal/corerad", "test": "TestVerifC05", "newgo": True, "timeout": 1200, "arch386": ["quick", "thorough"]},
                 {"pkg": "internal/corerad", "test": "TestVerifC05Stall", "newgo": True, "timeout": 1200}],
     "rule": "(i) multicastDelay called with an injected draw on (min,max) pairs produced by the real config.Parse: every "
             "whole-second max 4..1800 s with the default min x i in {2,3} x draws {0, range-1, a .5 s landing}; explicit "
